@@ -1,9 +1,12 @@
 CFG = {
+    "extra_modules": ["XehModel.Proofs.Leaf.Literals"],
+    "extra_theorems": ["Xeh.LeafBridge.loadI64_guard_matches_source", "Xeh.LeafBridge.loadI64_payload_matches_source"],
     "n_quick": 3000, "n_thorough": 300000,
     "rule": "(B) every dictionary word from word_list() at run time (170 after excluding the five tag words, print println .s concat join str>number newline emit, random random-bits read-all write-all exec-piped include require exit dump dump-at see and all immediate words), arity 0..3, operand tuples from typed shapes (70 %) or arbitrary values, every single argument position tagged and all positions tagged, tags = plain / #fmt / empty tag map / tags on tags, applied down to nesting depth 3 (elements, map keys and values); a 64-byte binary input is installed so the reading words succeed; (A) n typed cases over the modelled words (arith.rs, collection words, type predicates) sent to the model once untagged and once tagged; (C) the tag words: insert-tag/get-tag/remove-tag/tags/with-tags laws on values of every type. Relation checked: same success/failure (same error variant) and result stacks `==` (tag-blind equality; NaN / host objects compared after stripping). Distinct = distinct request lines."
         " Added after the fourth campaign: copies_and_case — selector / candidate / both tagged against neither over `dup equal?`, variables read twice, locals, vectors and maps of copies and `case … of` in both roles, with NaN and values holding one; the C host's view (xeh_is_*, lengths, xeh_vector_at) of tagged against untagged values."
         " Added after the fifth campaign: the formatting words keep every other tag; offset/input/remain carry no tags after a seek with a tagged argument; the generated tag maps include the tags the read words attach (big, len)."
-        " Added after the sixth campaign: insert-tag of a value equal to the stored one but differently tagged (get-tag gives back exactly what was inserted last); tagged numbers stored in the variables that words consult (`big?`, `offset`) select what the bare number selects.",
+        " Added after the sixth campaign: insert-tag of a value equal to the stored one but differently tagged (get-tag gives back exactly what was inserted last); tagged numbers stored in the variables that words consult (`big?`, `offset`) select what the bare number selects."
+        " Tagged values inlined by the compiler (block results, constants) answer `tags` / `get-tag` / print like the value computed in place.",
     "trusted_base_extra": [
         "tag-blindness is proved as equality after recursive untagging (`strip`), which implies `equal?` of results except on NaN / host objects",
         "NaN payloads are compared as a class for arithmetic words (as in C09)",
